@@ -28,7 +28,7 @@ Retryable(s, f) == s \in {429, 500, 502, 503} \/ f \in {"badlen", "reset"}
 Decodable(b) == b \in {"answer", "padded", "big"}      \* an independent decoder accepts the whole body
 \* the bytes the client is entitled to see, as a class
 Seen(f, b) == CASE f = "exact"   -> IF b = "empty" THEN "nothing" ELSE "whole"
-                [] f = "chunked" -> IF b = "empty" THEN "nothing" ELSE "whole"
+                [] f \in {"chunked", "closedelim"} -> IF b = "empty" THEN "nothing" ELSE "whole"   \* no Content-Length: chunked, or delimited by the close
                 [] f = "short"   -> "prefix"          \* Content-Length smaller than the message
                 [] f = "long"    -> "cutoff"          \* Content-Length larger than what is sent before the close
                 [] f = "zero"    -> "nothing"
@@ -47,7 +47,7 @@ Admissible(s, f, b) ==
 
 \* ---- what the code does
 Init == /\ st \in Statuses /\ fr \in Framings /\ bd \in Bodies
-        /\ (fr \in {"over"} => bd = "big") /\ (bd = "big" => fr \in {"exact", "over", "chunked"})
+        /\ (fr \in {"over"} => bd = "big") /\ (bd = "big" => fr \in {"exact", "over", "chunked", "closedelim"})
         /\ (Retryable(st, fr) => bd = "answer" /\ (fr \in {"badlen", "reset"} => st = 200) /\ (st # 200 => fr = "exact"))
         /\ pc = "send" /\ res = "none" /\ steps = <<>> /\ sent = 0 /\ ctx = "live"
 
@@ -62,7 +62,7 @@ ReadStatus == pc = "status" /\ UNCHANGED sent /\
 Resume == pc = "pause" /\ UNCHANGED sent /\ (IF ctx = "live" THEN Step("resume", "send", "none") ELSE Step("resume", "done", "err"))
 CtxDone == ctx = "live" /\ pc # "done" /\ Retryable(st, fr) /\ ctx' = "done" /\ UNCHANGED <<st, fr, bd, pc, res, steps, sent>>
 ReadLength == pc = "length" /\ UNCHANGED sent /\
-    IF fr \in {"chunked", "over", "huge"} THEN Step("length", "done", "err")    \* no length, or more than 65535: refused before any allocation
+    IF fr \in {"chunked", "closedelim", "over", "huge"} THEN Step("length", "done", "err")    \* no length, or more than 65535: refused before any allocation
     ELSE Step("length", "body", "none")
 ReadBody == pc = "body" /\ UNCHANGED sent /\
     IF Seen(fr, bd) = "cutoff" THEN Step("body", "done", "err")      \* short read
